@@ -2,7 +2,7 @@
 From Coq Require Import String List Bool ZArith.
 Require Import V.Lib.PyStr V.Lib.JTree V.Dosini.Codec V.Dosini.Generated V.Dosini.Model V.Dosini.Proofs V.Dosini.Tables
   V.Dosini.Text V.Dosini.TextProofs V.Dosini.FileProofs V.Dosini.Stages V.Dosini.Envs V.Dosini.EnvsProofs V.Dosini.Backends
-  V.Dosini.Rewrite V.Dosini.RewriteProofs.
+  V.Dosini.Rewrite V.Dosini.RewriteProofs V.Dosini.Render V.Dosini.RenderProofs.
 Import ListNotations.
 Open Scope string_scope.
 
@@ -251,6 +251,26 @@ Definition example_new_files : dir :=
   [("experiment.instance.conf", "e2"); ("variables.conf", "v2"); ("stages.d/stage0.instance.conf", "a2");
    ("stages.d/stage1.instance.conf", "b2")].
 
+
+(* ---- one description OBJECT written several times (Render.v).  Dosini.configuration_for_stage / _flowir_component_to_dict are
+   handed the dictionaries of the description itself; _translate_dict_to_dict deletes the entries it has rendered from a private
+   copy.  For EVERY store of objects, every description object of it, every number n of renders one after the other: each render
+   returns the section of the pure model (dump_c of the options that are set: a cell holding None is not written) and every
+   object alive before the renders - the description first of all - is afterwards what it was. *)
+Theorem C19_render_keeps_description : forall n (s : store) i vs, i < length s ->
+  fst (render_seq true dump_table n s i vs) = repeat (dump_c (mkComp (set_cells (sget s i)) vs)) n /\
+  (forall k, k < length s -> sget (snd (render_seq true dump_table n s i vs)) k = sget s k).
+Proof. intros n s i vs H. destruct (render_seq_copy dump_table n s i vs H) as [A [B _]]. split; assumption. Qed.
+Print Assumptions C19_render_keeps_description.
+
+(* ... hence every one of the sections, the second and the n-th like the first, loads like the description *)
+Theorem C19_every_render_round_trips : forall n (s : store) i vs, i < length s ->
+  Forall (fun r : option ini => match r with Some sec => parse_c sec | None => None end =
+                                roundtrip_c (mkComp (set_cells (sget s i)) vs))
+         (fst (render_seq true dump_table n s i vs)).
+Proof. exact render_seq_roundtrip. Qed.
+Print Assumptions C19_every_render_round_trips.
+
 (* a table inside the guard of C19_text_roundtrip: a [META] section and two components; a value of five lines
    (an empty one, lines that look like an entry, a section header and an inline comment), a first line that
    starts with '#', keys in mixed case, %(name)s references and an escaped '%%' *)
@@ -260,6 +280,8 @@ Definition example_table : table :=
             ("arguments", String.concat NL ["-n %(n)s  A:ref"; ""; "k = v"; "[x] # no comment"; "100%% : done"]);
             ("Mixed_Case", "#first"); ("job-type", "lsf")]);
    ("a]b", [])].
+
+Definition example_cells : obj := [("command.executable", Some (VStr "echo")); ("command.arguments", None)].
 
 Definition example_root : root :=
   mkRoot [("clean", []); ("gpu-env", [("PATH", "/opt/bin:$PATH"); ("DEFAULTS", "PATH:LD_LIBRARY_PATH")]); ("Bare", [])]
@@ -304,5 +326,10 @@ Example C19_example :
   seen true (dump_dir true true example_old_dir example_new_files) =
     [("experiment.instance.conf", "e2"); ("output.conf", "o1"); ("stages.d/stage0.instance.conf", "a2"); ("stages.d/stage1.instance.conf", "b2")] /\
   lookup "variables.conf" (dump_dir true true example_old_dir example_new_files) = Some "v1" /\
-  lookup "stages.d/stage2.instance.conf" (dump_dir true false example_old_dir example_new_files) = Some "c1".
+  lookup "stages.d/stage2.instance.conf" (dump_dir true false example_old_dir example_new_files) = Some "c1" /\
+  (* one description object rendered twice: the same section both times, the object keeps its options (the one holding None too) *)
+  fst (render_seq true dump_table 2 [example_cells] 0 [("v", "1")]) =
+    [Some [("executable", "echo"); ("v", "1")]; Some [("executable", "echo"); ("v", "1")]] /\
+  sget (snd (render_seq true dump_table 2 [example_cells] 0 [("v", "1")])) 0 = example_cells /\
+  set_cells example_cells = [("command.executable", VStr "echo")].
 Proof. vm_compute. repeat split; reflexivity. Qed.
